@@ -40,3 +40,33 @@ def qStep (q : SemQuery) (jm : JoinMap) (s : QState) : QState :=
 def qInit (q : SemQuery) (A : Table) (sink : Sink := {}) : QState := { rest := A, st := { chain := buildChain q sink } }
 
 end Rbql
+
+namespace Rbql
+
+/-! ### machines that can see (and could write) shared module-level state
+
+`γ` stands for everything that lives at module level in `rbql_engine.py` (`debug_mode`, `default_statement_groups`, any cache,
+handler instance or published closure a change might introduce).  A step gets the shared state and its own state and returns both.
+The engine's own steps never touch the shared part (`liftShared`); the FRAME condition `Frames` is what the source-derived obligation
+`C16_no_shared_writes` supports for the real code. -/
+
+/-- run two machines over one shared state under a schedule -/
+def interleaveShared {γ σ₁ σ₂ : Type} (f₁ : γ × σ₁ → γ × σ₁) (f₂ : γ × σ₂ → γ × σ₂) : List Bool → γ × σ₁ × σ₂ → γ × σ₁ × σ₂
+  | [], s => s
+  | true :: rest, (g, s₁, s₂) => let r := f₁ (g, s₁); interleaveShared f₁ f₂ rest (r.1, r.2, s₂)
+  | false :: rest, (g, s₁, s₂) => let r := f₂ (g, s₂); interleaveShared f₁ f₂ rest (r.1, s₁, r.2)
+
+/-- the step leaves the shared state as it found it -/
+def Frames {γ σ : Type} (f : γ × σ → γ × σ) : Prop := ∀ g s, (f (g, s)).1 = g
+
+/-- a step that does not even look at the shared state -/
+def liftShared {γ σ : Type} (f : σ → σ) : γ × σ → γ × σ := fun p => (p.1, f p.2)
+
+/-- a query that memoises in shared state: the first value any query parses decides, for everybody, whether values are strings
+(the shape of the seeded change "AVG / VARIANCE share one module-level NumHandler") -/
+def sharedHandlerStep : Option Bool × (List Bool × List Bool) → Option Bool × (List Bool × List Bool)
+  | (g, ([], out)) => (g, ([], out))
+  | (none, (v :: rest, out)) => (some v, (rest, out ++ [v]))          -- first value ever seen: decide and remember
+  | (some d, (_ :: rest, out)) => (some d, (rest, out ++ [d]))        -- later values: the remembered decision is used
+
+end Rbql
